@@ -1432,6 +1432,25 @@ class Engine:
     def m_SStr_lower(self, path, s, e):
         return SStr(self.c.lower(s.t))
 
+    def m_SConst_join(self, path, s, e):
+        """sep.join(list of str) for a list whose length is determined on this path (built by a literal and appends): exact concatenation"""
+        v = self.ev(path, e.args[0])
+        if not (isinstance(v, SList) and v.elem == "str" and isinstance(s.py, str)):
+            raise EngineError("join of other than a list of str")
+        seq = path.heap.list_get(v)
+        n = z3.simplify(z3.Length(seq))
+        if not z3.is_int_value(n) or n.as_long() > 8:
+            # length not fixed on the path: the uninterpreted STRJOIN, whose defining equations the contract instantiates where it needs them
+            return SStr(STRJOIN(z3.StringVal(s.py), seq))
+        parts = []
+        for i in range(n.as_long()):
+            if i:
+                parts.append(z3.StringVal(s.py))
+            parts.append(STR_OF(z3.simplify(seq[i])))
+        if not parts:
+            return SConst("")
+        return SStr(z3.Concat(*parts) if len(parts) > 1 else parts[0])
+
     def m_SConst_lower(self, path, s, e):
         return SConst(s.py.lower())
 
